@@ -41,6 +41,15 @@ impl<'a> TokenBasedLuaGenerator<'a> {
             self.uncomment();
         }
 
+        if is_comment && !self.currently_commenting {
+            // a comment that directly follows a `-` would turn it into a part of the comment
+            if let Some(first_character) = content.chars().next() {
+                if self.needs_space(first_character) {
+                    self.output.push(' ');
+                }
+            }
+        }
+
         self.push_str(content);
 
         match trivia.kind() {
